@@ -31,20 +31,25 @@ def opdesc(op):
     return o
 
 
-def make_case(cid, rng, schema, n_ops, code, shaped=None):
+def make_case(cid, rng, schema, n_ops, code, shaped=None, norow=False):
     ops, metas = GH.gen_library_history(rng, schema, n_ops)
+    dropped = False
     full = [{"op": "create_temporary", "schema": schema}]
     if shaped is not None:
         full += GH.first_id_prelude(schema, GH.FIRST_IDS[shaped % len(GH.FIRST_IDS)])
     for op in ops:
         if op["op"] in MUTATING:
-            full.append({"op": "fault_sweep", "inner": op, "code": code, "max_k": 600, "keep_going": True})
+            full.append({"op": "fault_sweep", "inner": op, "code": code, "max_k": 600, "keep_going": True, "stored": True})
+            if norow and op["op"] == "create_track" and not dropped:
+                # 1.x: the first track as Engine leaves one it has imported but not analysed - no performance-data row at all
+                full.append({"op": "raw_exec", "sql": "DELETE FROM PerformanceData WHERE id = (SELECT MIN(id) FROM Track)"})
+                dropped = True
         else:
             full.append(op)
     # an update of a populated track from a different rich snapshot
     from .. import gen_snap as GS
     full.append({"op": "fault_sweep", "inner": {"op": "update", "t": "t0", "snap": GS.gen_snapshot(rng, schema, rich=True, hostile_sentinels=False)},
-                 "code": code, "max_k": 600, "keep_going": True})
+                 "code": code, "max_k": 600, "keep_going": True, "stored": True})
     return {"id": cid, "schema": schema, "ops": full, "_code": code}
 
 
@@ -56,7 +61,7 @@ def make_table_case(cid, rng, schema, code):
     full = [{"op": "lib_create_temporary", "schema": schema}, {"op": "info_get", "bind": "uuid", "bind_field": "uuid", "bind_hex": True}]
 
     def sweep(op):
-        outer = {"op": "fault_sweep", "inner": op, "code": code, "max_k": 600, "keep_going": True, "tables": True,
+        outer = {"op": "fault_sweep", "inner": op, "code": code, "max_k": 600, "keep_going": True, "tables": True, "stored": True,
                  "observe": {"snapshots": False}}
         if "bind" in op:
             # the id comes from the fault-free run at the end of the sweep
@@ -147,6 +152,16 @@ def judge_case(ctx, res):
             ctx.bump_in("faulted_statement_kinds", sqlk)
             if nst >= 2:
                 ctx.nontriv("%s|%s|%d" % (schema, od, run["k"]))
+        for run in r["runs"]:
+            if "stored_changed" in run:
+                ctx.bump("failed_calls_that_changed_stored_rows")
+                if run["same"] and run["threw"]:
+                    tabs = sorted(set(run["stored_changed"]))
+                    ctx.violation(f"stored-rows-changed {fam} {od} {' '.join(t.split('.', 1)[1] for t in tabs)[:80]}",
+                                  f"{schema}: statement {run['k']} of {od} failed ({(run.get('sql') or '')[:90]}), the call threw and every "
+                                  f"accessor answers as before, but the stored rows of {tabs} are no longer what they were", wit)
+            elif op.get("stored"):
+                ctx.bump("failed_calls_whose_stored_rows_were_compared")
         bad_runs = [run for run in r["runs"] if not run["threw"] or run.get("txn") or not run["same"]]
         for run in bad_runs:
             sql = (run.get("sql") or "")[:90]
@@ -191,7 +206,10 @@ def run(ctx):
     n = 0
     for schema in ALL_SCHEMAS:
         for k in range(per):
-            cases.append(make_case("f%d" % n, ctx.rng, schema, 22 + (k % 3) * 6, codes[k % len(codes)], shaped=(k // 3 if k % 3 == 1 else None)))
+            norow = (k % 4 == 2) and not schema.startswith("2.")
+            if norow:
+                ctx.bump("histories_with_a_track_without_performance_row")
+            cases.append(make_case("f%d" % n, ctx.rng, schema, 22 + (k % 3) * 6, codes[k % len(codes)], shaped=(k // 3 if k % 3 == 1 else None), norow=norow))
             n += 1
     from ..framework import V2_SCHEMAS
     pert = 6 if ctx.tier == "quick" else 100
@@ -215,9 +233,9 @@ def run(ctx):
             ops.append({"op": "add_track", "c": "s%d" % j, "t": "t%d" % (j % 3)})
             ops.append({"op": "add_track", "c": "s%d" % j, "t": "t0"})
         code = codes[n % len(codes)]
-        ops.append({"op": "fault_sweep", "inner": {"op": "remove_track", "t": "t1"}, "code": code, "max_k": 4000, "k_stride": 5, "keep_going": True,
+        ops.append({"op": "fault_sweep", "inner": {"op": "remove_track", "t": "t1"}, "code": code, "max_k": 4000, "k_stride": 5, "keep_going": True, "stored": True,
                     "observe": {"snapshots": False, "max_names": 4}})
-        ops.append({"op": "fault_sweep", "inner": {"op": "remove_crate", "c": "cr"}, "code": code, "max_k": 8000, "k_stride": 5, "keep_going": True,
+        ops.append({"op": "fault_sweep", "inner": {"op": "remove_crate", "c": "cr"}, "code": code, "max_k": 8000, "k_stride": 5, "keep_going": True, "stored": True,
                     "observe": {"snapshots": False, "max_names": 4}})
         cases.append({"id": "long%d" % n, "schema": schema, "ops": ops, "_code": code})
         n += 1
@@ -225,7 +243,8 @@ def run(ctx):
     ctx.sample({"schema": c0["schema"], "calls": [opdesc(o["inner"]) for o in c0["ops"] if o["op"] == "fault_sweep"][:14]})
     ctx.assumptions += ["an injected fault is returned instead of executing the statement, so the failed statement itself has no effect "
                         "by construction; ROLLBACK statements are never failed",
-                        "the verdict is equality of full public observations (API level), the autocommit flag, and that the call threw",
+                        "the verdict is equality of full public observations (API level), the autocommit flag, that the call threw, and - as a separately "
+                        "keyed clause - that the content of every stored table (SELECT * digests) is what it was",
                         "error codes cycle through SQLITE_FULL, IOERR, BUSY, CONSTRAINT (thorough adds NOMEM, CANTOPEN, READONLY), one code per history"]
     runner.run_cases(cases, cfg="plain", on_result=lambda r: judge_case(ctx, r), stall_timeout=120)
     seen = set(ctx.extra.get("cases_by_schema", {}))
